@@ -1169,4 +1169,466 @@ theorem runSession_quiet (po : Nat → PriceOps P) (ms : Markets) (k : Nat) (cfg
     · simp
     · exact h.2.2.2 x hx'
 
+/-! ### every fill of a run is applied to the ledger exactly once and notified exactly twice -/
+
+/-- the fill references of the ledger events of a trace, in order -/
+def ledgerRefs : List Ev → List Nat
+  | [] => []
+  | .ledger refs :: es => refs ++ ledgerRefs es
+  | _ :: es => ledgerRefs es
+
+/-- the fill references of the execution notifications of a trace, in order -/
+def cbRefs : List Ev → List Nat
+  | [] => []
+  | .cbExecuted _ r :: es => r :: cbRefs es
+  | _ :: es => cbRefs es
+
+def dup (l : List Nat) : List Nat := l.flatMap (fun r => [r, r])
+
+theorem ledgerRefs_append (a b : List Ev) : ledgerRefs (a ++ b) = ledgerRefs a ++ ledgerRefs b := by
+  induction a with
+  | nil => rfl
+  | cons e es ih => cases e <;> simp [ledgerRefs, ih]
+
+theorem cbRefs_append (a b : List Ev) : cbRefs (a ++ b) = cbRefs a ++ cbRefs b := by
+  induction a with
+  | nil => rfl
+  | cons e es ih => cases e <;> simp [cbRefs, ih]
+
+theorem dup_append (a b : List Nat) : dup (a ++ b) = dup a ++ dup b := by simp [dup]
+
+/-- a trace without ledger events and execution notifications -/
+def Plain (tr : List Ev) : Prop := ledgerRefs tr = [] ∧ cbRefs tr = []
+
+theorem plain_of_frame (tr : List Ev) (h : ∀ e ∈ tr, e.isLedger = false ∧ e.isCallback = false) : Plain tr := by
+  induction tr with
+  | nil => exact ⟨rfl, rfl⟩
+  | cons e es ih =>
+    have he := h e (by simp)
+    have := ih (fun x hx => h x (by simp [hx]))
+    cases e <;> simp [Ev.isLedger, Ev.isCallback] at he <;> exact ⟨by simpa [ledgerRefs] using this.1, by simpa [cbRefs] using this.2⟩
+
+theorem fillEvents_refs (t : Nat) (fs : List RFill) :
+    ledgerRefs (fillEvents t fs) = [] ∧ cbRefs (fillEvents t fs) = dup (fs.map (·.ref)) := by
+  induction fs with
+  | nil => exact ⟨rfl, rfl⟩
+  | cons f fs ih => simp [fillEvents, ledgerRefs, cbRefs, dup, ih.1, ih.2]
+
+/-- the ledger and notification references of one processed request -/
+theorem processRequest_refs (t : Nat) (flag : Bool) (r : Request) :
+    ledgerRefs (Runner.processRequest t flag r).tr =
+      (if r.accepted && flag then (match r.fills with | some fs => fs.map (·.ref) | none => []) else []) ∧
+    cbRefs (Runner.processRequest t flag r).tr =
+      dup (if r.accepted && flag then (match r.fills with | some fs => fs.map (·.ref) | none => []) else []) := by
+  unfold Runner.processRequest
+  cases hc : r.isCancel <;> cases ha : r.accepted <;> cases hf : flag <;>
+    (try rcases hfs : r.fills with _ | fs) <;>
+    simp [ledgerRefs, cbRefs, dup, ledgerRefs_append, cbRefs_append, (fillEvents_refs t _).1, (fillEvents_refs t _).2]
+
+theorem rfills_refs (q : SReq P) (base i : Nat) (fs : List (Fill P)) :
+    (rfills q base i fs).map (·.ref) = List.range' (base + i) fs.length := by
+  induction fs generalizing i with
+  | nil => rfl
+  | cons f fs ih =>
+    simp only [rfills, List.map_cons, List.length_cons, List.range'_succ, ih (i + 1)]
+    congr 2
+
+/-- the fills of a function are numbered freshly and consecutively, each is applied to the ledger
+once and notified twice -/
+def SOut.Fresh (a : SOut P) (s : State P) : Prop :=
+  ∃ n, a.st.nfill = s.nfill + n ∧ ledgerRefs a.out.tr = List.range' s.nfill n ∧
+    cbRefs a.out.tr = dup (List.range' s.nfill n)
+
+theorem processRequest_fresh (po : Nat → PriceOps P) (t : Nat) (s : State P) (flag : Bool) (q : SReq P) :
+    (processRequest po t s flag q).Fresh s := by
+  unfold processRequest SOut.Fresh
+  simp only
+  have hr := processRequest_refs t flag (resolve po s flag q).2.1
+  rw [hr.1, hr.2]
+  unfold resolve
+  rcases hm : marketCall po s q with _ | ⟨s1, r1, o1⟩
+  · exact ⟨0, rfl, by simp [baseRequest], by simp [baseRequest, dup]⟩
+  · have hn := (marketCall_tracks po s s1 q r1 o1 hm).2
+    cases flag
+    · exact ⟨0, by simpa using hn, by simp [baseRequest], by simp [baseRequest, dup]⟩
+    · simp only [↓reduceIte]
+      rcases hrc : roundCall po s1 q with _ | ⟨s2, rf, r2, o2⟩
+      · exact ⟨0, by simpa using hn, by simp [baseRequest], by simp [baseRequest, dup]⟩
+      · unfold roundCall at hrc
+        rcases he : (s1.mkt q.market).execution (po q.market) with e | ⟨m', fs⟩
+        · rw [he] at hrc; cases hrc
+        · rw [he] at hrc
+          simp only [Option.some.injEq, Prod.mk.injEq] at hrc
+          obtain ⟨rfl, rfl, _, _⟩ := hrc
+          refine ⟨fs.length, by simp [hn], ?_, ?_⟩
+          · simp [baseRequest, rfills_refs, hn]
+          · simp [baseRequest, rfills_refs, hn]
+
+theorem pure_fresh (s : State P) (flag : Bool) : (SOut.pure s flag).Fresh s :=
+  ⟨0, rfl, rfl, rfl⟩
+
+theorem andThen_fresh (s : State P) (a : SOut P) (f : State P → Bool → SOut P) (ha : a.Fresh s)
+    (hf : ∀ s' fl, (f s' fl).Fresh s') : (a.andThen f).Fresh s := by
+  unfold SOut.andThen
+  by_cases hok : a.out.ok = true
+  · rw [if_pos hok]
+    obtain ⟨n, h1, h2, h3⟩ := ha
+    obtain ⟨k, g1, g2, g3⟩ := hf a.st a.out.flag
+    refine ⟨n + k, by simp only [g1, h1]; omega, ?_, ?_⟩
+    · simp only [ledgerRefs_append, h2, g2, h1]
+      exact List.range'_append_1
+    · simp only [cbRefs_append, h3, g3, h1, ← dup_append]
+      rw [List.range'_append_1]
+  · rw [if_neg hok]; exact ha
+
+theorem prepend_fresh (s : State P) (a : SOut P) (l : List Ev) (hl : Plain l) (ha : a.Fresh s) :
+    (a.prependTr l).Fresh s := by
+  obtain ⟨n, h1, h2, h3⟩ := ha
+  exact ⟨n, h1, by simp [SOut.prependTr, ledgerRefs_append, hl.1, h2], by simp [SOut.prependTr, cbRefs_append, hl.2, h3]⟩
+
+theorem consTr_fresh (s : State P) (a : SOut P) (e : Ev) (he : Plain [e]) (ha : a.Fresh s) :
+    (a.consTr e).Fresh s := by
+  have := prepend_fresh s a [e] he ha
+  simpa [SOut.prependTr, SOut.consTr] using this
+
+theorem processBatch_fresh (po : Nat → PriceOps P) (t : Nat) (s : State P) (flag : Bool) (qs : List (SReq P)) :
+    (processBatch po t s flag qs).Fresh s := by
+  induction qs generalizing s flag with
+  | nil => exact pure_fresh s flag
+  | cons q qs ih =>
+    unfold processBatch
+    exact andThen_fresh s _ _ (processRequest_fresh po t s flag q) (fun s' fl => ih s' fl)
+
+theorem plain_consult (a : Nat) (h : Bool) : Plain [Ev.consult a h] := ⟨rfl, rfl⟩
+
+theorem hftRound_fresh (po : Nat → PriceOps P) (t : Nat) (cap : Int) (answer : Nat → List (SReq P))
+    (as : List Nat) (n : Nat) (s : State P) (flag : Bool) :
+    (hftRound po t cap answer as n s flag).Fresh s := by
+  induction as generalizing n s flag with
+  | nil => exact pure_fresh s flag
+  | cons a as ih =>
+    unfold hftRound
+    by_cases h1 : (n : Int) ≥ cap
+    · rw [if_pos h1]; exact pure_fresh s flag
+    · rw [if_neg h1]
+      by_cases h2 : (answer a).isEmpty = true
+      · simp only [h2, ↓reduceIte]
+        exact consTr_fresh s _ _ (plain_consult a true) (ih n s flag)
+      · simp only [h2, Bool.false_eq_true, ↓reduceIte]
+        by_cases h3 : (answer a).any (fun q => q.owner ≠ a) = true
+        · rw [if_pos h3]; exact ⟨0, rfl, rfl, rfl⟩
+        · rw [if_neg h3]
+          exact consTr_fresh s _ _ (plain_consult a true)
+            (andThen_fresh s _ _ (processBatch_fresh po t s flag _) (fun s' fl => ih (n + 1) s' fl))
+
+theorem handle_fresh (po : Nat → PriceOps P) (t : Nat) (maxHft : Int) (bs : List (Nat × List (SReq P)))
+    (rts : List (RoundTape P)) (s : State P) (flag : Bool) : (handle po t maxHft bs rts s flag).Fresh s := by
+  induction bs generalizing rts s flag with
+  | nil => exact pure_fresh s flag
+  | cons b bs ih =>
+    obtain ⟨a, batch⟩ := b
+    unfold handle
+    refine andThen_fresh s _ _ (processBatch_fresh po t s flag batch) (fun s1 fl => ?_)
+    refine andThen_fresh s1 _ _ ?_ (fun s2 fl2 => ih rts.tail s2 fl2)
+    by_cases hg : (rts.headD RoundTape.none).go = true
+    · rw [if_pos hg]; exact hftRound_fresh po t maxHft _ _ 0 s1 fl
+    · rw [if_neg hg]; exact pure_fresh s1 fl
+
+theorem collect_plain (hft : Bool) (cap : Int) (answer : Nat → List (SReq P)) (as : List Nat) (n : Nat) :
+    Plain (collect hft cap answer as n).1 := by
+  induction as generalizing n with
+  | nil => exact ⟨rfl, rfl⟩
+  | cons a as ih =>
+    unfold collect
+    by_cases h1 : (n : Int) ≥ cap
+    · simp only [h1, ↓reduceIte]; exact ⟨rfl, rfl⟩
+    · rw [if_neg h1]
+      by_cases h2 : (answer a).isEmpty = true
+      · simp only [h2, ↓reduceIte]
+        exact ⟨by simpa [ledgerRefs] using (ih n).1, by simpa [cbRefs] using (ih n).2⟩
+      · simp only [h2, Bool.false_eq_true, ↓reduceIte]
+        by_cases h3 : (answer a).any (fun q => q.owner ≠ a) = true
+        · rw [if_pos h3]; exact ⟨rfl, rfl⟩
+        · rw [if_neg h3]
+          exact ⟨by simpa [ledgerRefs] using (ih (n + 1)).1, by simpa [cbRefs] using (ih (n + 1)).2⟩
+
+theorem stepBody_fresh (po : Nat → PriceOps P) (cfg : SessionCfg) (t : Nat) (s0 : State P) (flag0 : Bool)
+    (tape : StepTape P) : (stepBody po cfg t s0 flag0 tape).Fresh s0 := by
+  unfold stepBody
+  by_cases hp : cfg.placement = true
+  · rw [if_pos hp]
+    by_cases hc : (collect false cfg.maxNormal tape.answer tape.perm 0).2.1 = true
+    · simp only [hc, ↓reduceIte]
+      exact prepend_fresh s0 _ _ (collect_plain _ _ _ _ _) (handle_fresh po t cfg.maxHft _ _ _ _)
+    · simp only [hc, Bool.false_eq_true, ↓reduceIte]
+      have := collect_plain false cfg.maxNormal tape.answer tape.perm 0
+      exact ⟨0, rfl, this.1, by simpa [dup] using this.2⟩
+  · rw [if_neg hp]; exact pure_fresh _ _
+
+theorem stepBefore_plain (t : Nat) (resume : Nat → StepFx P) (ms : Markets) (f : Nat → Market P) (flag : Bool) :
+    Plain (stepBefore t resume ms f flag).1 := by
+  induction ms generalizing f flag with
+  | nil => exact ⟨rfl, rfl⟩
+  | cons m ms ih =>
+    unfold stepBefore
+    have := ih (setFunds (setRunnings f (resume m.1).running) (resume m.1).fund)
+      (if (resume m.1).flag then true else flag)
+    exact ⟨by simpa [ledgerRefs] using this.1, by simpa [cbRefs] using this.2⟩
+
+theorem stepAfter_plain (t : Nat) (ms : Markets) : Plain (stepAfter t ms) := by
+  induction ms with
+  | nil => exact ⟨rfl, rfl⟩
+  | cons m ms ih => exact ⟨by simpa [stepAfter, ledgerRefs] using ih.1, by simpa [stepAfter, cbRefs] using ih.2⟩
+
+theorem ticks_plain (ms : Markets) : Plain (ticks ms) := by
+  apply plain_of_frame
+  intro e he
+  have := frame_not_other e (ticks_frame ms e he)
+  exact ⟨this.2.2.2.2, this.2.2.1⟩
+
+theorem Plain.append {a b : List Ev} (ha : Plain a) (hb : Plain b) : Plain (a ++ b) :=
+  ⟨by rw [ledgerRefs_append, ha.1, hb.1]; rfl, by rw [cbRefs_append, ha.2, hb.2]; rfl⟩
+
+theorem runStep_fresh (po : Nat → PriceOps P) (ms : Markets) (cfg : SessionCfg) (t : Nat) (s : State P)
+    (flag : Bool) (tape : StepTape P) : (runStep po ms cfg t s flag tape).Fresh s := by
+  have hb := stepBefore_plain (P := P) t tape.resume ms s.mkt flag
+  obtain ⟨n, h1, h2, h3⟩ := stepBody_fresh po cfg t { s with mkt := (stepBefore t tape.resume ms s.mkt flag).2.1 }
+    (stepBefore t tape.resume ms s.mkt flag).2.2.1 tape
+  have hta := (stepAfter_plain t ms).append (ticks_plain ms)
+  unfold runStep
+  simp only
+  split
+  · refine ⟨n, by simpa using h1, ?_, ?_⟩
+    · simp only [ledgerRefs_append, hb.1, h2, (stepAfter_plain t ms).1, (ticks_plain ms).1]
+      simp
+    · simp only [cbRefs_append, hb.2, h3, (stepAfter_plain t ms).2, (ticks_plain ms).2]
+      simp
+  · refine ⟨n, by simpa using h1, ?_, ?_⟩
+    · simp only [ledgerRefs_append, hb.1, h2]; simp
+    · simp only [cbRefs_append, hb.2, h3]; simp
+
+theorem runSteps_fresh (po : Nat → PriceOps P) (ms : Markets) (cfg : SessionCfg) (t : Nat) (s : State P)
+    (flag : Bool) (tapes : List (StepTape P)) (n : Nat) : (runSteps po ms cfg t s flag tapes n).Fresh s := by
+  induction n generalizing t s flag tapes with
+  | zero => exact pure_fresh s flag
+  | succ n ih =>
+    unfold runSteps
+    exact andThen_fresh s _ _ (runStep_fresh po ms cfg t s flag _) (fun s' fl => ih (t + 1) s' fl tapes.tail)
+
+theorem map_setRunning_plain (ms : Markets) (b : Bool) : Plain (ms.map (fun m => Ev.setRunning m.1 b)) := by
+  induction ms with
+  | nil => exact ⟨rfl, rfl⟩
+  | cons m ms ih => exact ⟨by simpa [ledgerRefs] using ih.1, by simpa [cbRefs] using ih.2⟩
+
+theorem runSession_fresh (po : Nat → PriceOps P) (ms : Markets) (k : Nat) (cfg : SessionCfg) (start : Nat)
+    (s : State P) (tapes : List (StepTape P)) : (runSession po ms k cfg start s tapes).Fresh s := by
+  obtain ⟨n, h1, h2, h3⟩ := runSteps_fresh po ms cfg start
+    { s with mkt := setRunnings s.mkt (ms.map (fun m => (m.1, cfg.execution))) } cfg.execution tapes cfg.steps
+  have hh : Plain ([Ev.hookSessionBefore k start, Ev.sessionBegin k, Ev.flush]
+      ++ ms.map (fun m => Ev.setRunning m.1 cfg.execution)) :=
+    Plain.append ⟨rfl, rfl⟩ (map_setRunning_plain ms cfg.execution)
+  unfold runSession
+  simp only
+  split
+  · refine ⟨n, by simpa using h1, ?_, ?_⟩
+    · simp only [ledgerRefs_append, hh.1, h2]; simp [ledgerRefs]
+    · simp only [cbRefs_append, hh.2, h3]; simp [cbRefs]
+  · refine ⟨n, by simpa using h1, ?_, ?_⟩
+    · simp only [ledgerRefs_append, hh.1, h2]; simp
+    · simp only [cbRefs_append, hh.2, h3]; simp
+
+theorem runSessions_fresh (po : Nat → PriceOps P) (ms : Markets) (k start : Nat) (s : State P)
+    (cfgs : List SessionCfg) (tapes : List (List (StepTape P))) :
+    (runSessions po ms k start s cfgs tapes).Fresh s := by
+  induction cfgs generalizing k start s tapes with
+  | nil => exact pure_fresh s false
+  | cons cfg cfgs ih =>
+    unfold runSessions
+    exact andThen_fresh s _ _ (runSession_fresh po ms k cfg start s _)
+      (fun s' _ => ih (k + 1) (start + cfg.steps) s' tapes.tail)
+
+/-- **over a whole run**: the ledger events list the fills `0, 1, …, N−1` — every fill of the run
+exactly once, in order — and the execution notifications carry every one of them exactly twice
+(buyer, seller), where `N` is the number of fills of the run -/
+theorem run_fresh (po : Nat → PriceOps P) (ms : Markets) (price : Nat → P) (fund0 : Nat → Option P)
+    (cfgs : List SessionCfg) (tapes : List (List (StepTape P))) :
+    ledgerRefs (run po ms price fund0 cfgs tapes).out.tr =
+      List.range (run po ms price fund0 cfgs tapes).st.nfill ∧
+    cbRefs (run po ms price fund0 cfgs tapes).out.tr =
+      dup (List.range (run po ms price fund0 cfgs tapes).st.nfill) := by
+  obtain ⟨n, h1, h2, h3⟩ := runSessions_fresh po ms 0 0 (initState po price fund0) cfgs tapes
+  have hn : (run po ms price fund0 cfgs tapes).st.nfill = n := by simpa [run, initState] using h1
+  have ht := ticks_plain ms
+  have hend : Plain (if (runSessions po ms 0 0 (initState po price fund0) cfgs tapes).out.ok
+      then [Ev.simEnd, Ev.flush] else []) := by split <;> exact ⟨rfl, rfl⟩
+  rw [hn, List.range_eq_range']
+  constructor
+  · simp only [run, ledgerRefs_append, ht.1, h2, hend.1]
+    simp [ledgerRefs, initState]
+  · simp only [run, cbRefs_append, ht.2, h3, hend.2]
+    simp [cbRefs, initState]
+
+/-! ### the fill counter counts the fill records -/
+
+def countFills (l : List (MRec P)) : Nat := (l.filter (fun x => isFill x.2)).length
+
+theorem countFills_append (a b : List (MRec P)) : countFills (a ++ b) = countFills a + countFills b := by
+  simp [countFills]
+
+def SOut.Counted (a : SOut P) (s : State P) : Prop := a.st.nfill = s.nfill + countFills a.recs
+
+theorem countFills_zero (l : List (MRec P)) (h : ∀ x ∈ l, isFill x.2 = false) : countFills l = 0 := by
+  unfold countFills
+  rw [List.length_eq_zero_iff, List.filter_eq_nil_iff]
+  intro x hx
+  simp [h x hx]
+
+theorem processRequest_counted (po : Nat → PriceOps P) (t : Nat) (s : State P) (flag : Bool) (q : SReq P) :
+    (processRequest po t s flag q).Counted s := by
+  cases flag
+  · have h := processRequest_quiet po t s q
+    unfold SOut.Counted
+    rw [h.2.2.1, countFills_zero _ h.1]
+    rfl
+  · unfold processRequest SOut.Counted
+    simp only
+    unfold resolve
+    rcases hm : marketCall po s q with _ | ⟨s1, r1, o1⟩
+    · simp [countFills]
+    · have hq := processRequest_quiet po t s q
+      have hr1 : countFills r1 = 0 := by
+        have := hq.1
+        unfold processRequest resolve at this
+        simp only [hm, Bool.false_eq_true, ↓reduceIte] at this
+        exact countFills_zero _ this
+      have hn := (marketCall_tracks po s s1 q r1 o1 hm).2
+      simp only [↓reduceIte]
+      rcases hrc : roundCall po s1 q with _ | ⟨s2, rf, r2, o2⟩
+      · simp [hr1, hn]
+      · unfold roundCall at hrc
+        rcases he : (s1.mkt q.market).execution (po q.market) with e | ⟨m', fs⟩
+        · rw [he] at hrc; cases hrc
+        · rw [he] at hrc
+          simp only [Option.some.injEq, Prod.mk.injEq] at hrc
+          obtain ⟨rfl, _, rfl, _⟩ := hrc
+          simp only [countFills_append, hr1, hn, Nat.zero_add]
+          congr 1
+          unfold countFills
+          rw [List.filter_eq_self.mpr]
+          · simp
+          · intro x hx
+            obtain ⟨f, _, rfl⟩ := List.mem_map.mp hx
+            rfl
+
+theorem andThen_counted (s : State P) (a : SOut P) (f : State P → Bool → SOut P) (ha : a.Counted s)
+    (hf : ∀ s' fl, (f s' fl).Counted s') : (a.andThen f).Counted s := by
+  unfold SOut.andThen
+  by_cases hok : a.out.ok = true
+  · rw [if_pos hok]
+    have hb := hf a.st a.out.flag
+    unfold SOut.Counted at *
+    simp only [countFills_append]
+    omega
+  · rw [if_neg hok]; exact ha
+
+theorem pure_counted (s : State P) (flag : Bool) : (SOut.pure s flag).Counted s := by
+  simp [SOut.Counted, SOut.pure, countFills]
+
+theorem processBatch_counted (po : Nat → PriceOps P) (t : Nat) (s : State P) (flag : Bool) (qs : List (SReq P)) :
+    (processBatch po t s flag qs).Counted s := by
+  induction qs generalizing s flag with
+  | nil => exact pure_counted s flag
+  | cons q qs ih =>
+    unfold processBatch
+    exact andThen_counted s _ _ (processRequest_counted po t s flag q) (fun s' fl => ih s' fl)
+
+theorem hftRound_counted (po : Nat → PriceOps P) (t : Nat) (cap : Int) (answer : Nat → List (SReq P))
+    (as : List Nat) (n : Nat) (s : State P) (flag : Bool) :
+    (hftRound po t cap answer as n s flag).Counted s := by
+  induction as generalizing n s flag with
+  | nil => exact pure_counted s flag
+  | cons a as ih =>
+    unfold hftRound
+    by_cases h1 : (n : Int) ≥ cap
+    · rw [if_pos h1]; exact pure_counted s flag
+    · rw [if_neg h1]
+      by_cases h2 : (answer a).isEmpty = true
+      · simp only [h2, ↓reduceIte]
+        exact ih n s flag
+      · simp only [h2, Bool.false_eq_true, ↓reduceIte]
+        by_cases h3 : (answer a).any (fun q => q.owner ≠ a) = true
+        · rw [if_pos h3]; simp [SOut.Counted, countFills]
+        · rw [if_neg h3]
+          exact andThen_counted s _ _ (processBatch_counted po t s flag _) (fun s' fl => ih (n + 1) s' fl)
+
+theorem handle_counted (po : Nat → PriceOps P) (t : Nat) (maxHft : Int) (bs : List (Nat × List (SReq P)))
+    (rts : List (RoundTape P)) (s : State P) (flag : Bool) : (handle po t maxHft bs rts s flag).Counted s := by
+  induction bs generalizing rts s flag with
+  | nil => exact pure_counted s flag
+  | cons b bs ih =>
+    obtain ⟨a, batch⟩ := b
+    unfold handle
+    refine andThen_counted s _ _ (processBatch_counted po t s flag batch) (fun s1 fl => ?_)
+    refine andThen_counted s1 _ _ ?_ (fun s2 fl2 => ih rts.tail s2 fl2)
+    by_cases hg : (rts.headD RoundTape.none).go = true
+    · rw [if_pos hg]; exact hftRound_counted po t maxHft _ _ 0 s1 fl
+    · rw [if_neg hg]; exact pure_counted s1 fl
+
+theorem stepBody_counted (po : Nat → PriceOps P) (cfg : SessionCfg) (t : Nat) (s0 : State P) (flag0 : Bool)
+    (tape : StepTape P) : (stepBody po cfg t s0 flag0 tape).Counted s0 := by
+  unfold stepBody
+  by_cases hp : cfg.placement = true
+  · rw [if_pos hp]
+    by_cases hc : (collect false cfg.maxNormal tape.answer tape.perm 0).2.1 = true
+    · simp only [hc, ↓reduceIte]
+      exact handle_counted po t cfg.maxHft _ _ _ _
+    · simp only [hc, Bool.false_eq_true, ↓reduceIte]; simp [SOut.Counted, countFills]
+  · rw [if_neg hp]; exact pure_counted _ _
+
+theorem runStep_counted (po : Nat → PriceOps P) (ms : Markets) (cfg : SessionCfg) (t : Nat) (s : State P)
+    (flag : Bool) (tape : StepTape P) : (runStep po ms cfg t s flag tape).Counted s := by
+  have h2 := stepBody_counted po cfg t { s with mkt := (stepBefore t tape.resume ms s.mkt flag).2.1 }
+    (stepBefore t tape.resume ms s.mkt flag).2.2.1 tape
+  have htk := (tickAll_quiet po tape.fund (tickOrder ms)
+    (stepBody po cfg t { s with mkt := (stepBefore t tape.resume ms s.mkt flag).2.1 }
+      (stepBefore t tape.resume ms s.mkt flag).2.2.1 tape).st.mkt).1
+  unfold runStep SOut.Counted at *
+  simp only at h2 ⊢
+  split
+  · simp only [countFills_append, countFills_zero _ htk]
+    simpa using h2
+  · simpa using h2
+
+theorem runSteps_counted (po : Nat → PriceOps P) (ms : Markets) (cfg : SessionCfg) (t : Nat) (s : State P)
+    (flag : Bool) (tapes : List (StepTape P)) (n : Nat) : (runSteps po ms cfg t s flag tapes n).Counted s := by
+  induction n generalizing t s flag tapes with
+  | zero => exact pure_counted s flag
+  | succ n ih =>
+    unfold runSteps
+    exact andThen_counted s _ _ (runStep_counted po ms cfg t s flag _) (fun s' fl => ih (t + 1) s' fl tapes.tail)
+
+theorem runSession_counted (po : Nat → PriceOps P) (ms : Markets) (k : Nat) (cfg : SessionCfg) (start : Nat)
+    (s : State P) (tapes : List (StepTape P)) : (runSession po ms k cfg start s tapes).Counted s := by
+  have h := runSteps_counted po ms cfg start
+    { s with mkt := setRunnings s.mkt (ms.map (fun m => (m.1, cfg.execution))) } cfg.execution tapes cfg.steps
+  unfold runSession SOut.Counted at *
+  simp only at h ⊢
+  split <;> simpa using h
+
+theorem runSessions_counted (po : Nat → PriceOps P) (ms : Markets) (k start : Nat) (s : State P)
+    (cfgs : List SessionCfg) (tapes : List (List (StepTape P))) :
+    (runSessions po ms k start s cfgs tapes).Counted s := by
+  induction cfgs generalizing k start s tapes with
+  | nil => exact pure_counted s false
+  | cons cfg cfgs ih =>
+    unfold runSessions
+    exact andThen_counted s _ _ (runSession_counted po ms k cfg start s _)
+      (fun s' _ => ih (k + 1) (start + cfg.steps) s' tapes.tail)
+
+theorem run_counted (po : Nat → PriceOps P) (ms : Markets) (price : Nat → P) (fund0 : Nat → Option P)
+    (cfgs : List SessionCfg) (tapes : List (List (StepTape P))) :
+    (run po ms price fund0 cfgs tapes).st.nfill = countFills (run po ms price fund0 cfgs tapes).recs := by
+  have := runSessions_counted po ms 0 0 (initState po price fund0) cfgs tapes
+  simpa [SOut.Counted, run, initState] using this
+
 end Pams.Sim
